@@ -78,7 +78,8 @@ class Placement:
 
     def sheet_id(self, b, s):
         """Canonical sheet id as the library spells it: '[file]SHEET'."""
-        return "'[%s]%s'" % (self.file(b), self.sheet(b, s)['name'].upper())
+        return "'[%s]%s'" % (self.file(b), self.sheet(b, s)['name'].upper(
+        ).replace("'", "''"))
 
     def cell_id(self, b, s, r, c):
         return '%s!%s' % (self.sheet_id(b, s), self.a1(b, s, r, c))
@@ -224,7 +225,8 @@ class Renderer:
                     return "'[%d]%s'!%s" % (self.extlinks[b],
                                             name.replace("'", "''"), a1)
                 return '[%d]%s!%s' % (self.extlinks[b], name, a1)
-            return "'[%s]%s'!%s" % (self.p.file(b), name, a1)
+            return "'[%s]%s'!%s" % (self.p.file(b),
+                                    name.replace("'", "''"), a1)
         if sheet_needs_quote(name) or (st and st.random() < .3):
             return "'%s'!%s" % (name.replace("'", "''"), a1)
         return '%s!%s' % (name, a1)
